@@ -108,6 +108,10 @@ def envelope_run(ctx, n_requests):
             del raised[:]
             user, groups = kw.pop('user'), kw.pop('groups')
             version = kw.get('version', (1, 2))
+            order = rng.choice([None, None, True, False])        # Batch Order Option (the workload itself never sets it)
+            if order is not None:
+                kw['batch_order'] = order
+                ctx.count('envelope.batch_order.%s' % order)
             try:
                 req = eng.build(items, **kw)
             except Exception as e:      # a request the library refuses to construct is not a server response
@@ -288,6 +292,7 @@ def session_envelope(ctx):
     A, M = enums.CryptographicAlgorithm, enums.CryptographicUsageMask
     n = bad = 0
     outcomes = {}
+    sized, exact = {}, 0
     for version in kdrv.VERSIONS:
         eng = kdrv.Engine(workdir=ctx.work)
         try:
@@ -310,7 +315,23 @@ def session_envelope(ctx):
                 ('unencodable-response', [create()], {}, ('unencodable',)),
                 ('query', [kdrv.query()], {}, None),
                 ('locate', [kdrv.locate([], None, None)], {}, None),
+                ('ordered-stop-mid-failure', [create(), kdrv.get('999'), create()], {'batch_order': True}, None),
+                ('ordered-stop-first-failure', [kdrv.get('999'), create(), create()], {'batch_order': True}, None),
+                ('ordered-continue', [create(), kdrv.get('999'), create()],
+                 {'batch_order': True, 'batch_option': enums.BatchErrorContinuationOption.CONTINUE}, None),
+                ('unordered-stop-mid-failure', [create(), kdrv.get('999'), create()], {'batch_order': False}, None),
             ]
+            # answers whose encoded size is exactly a power of two (and its neighbours): the identifier of a Get that
+            # finds nothing is echoed once in the result message, so the size of the answer can be chosen
+            probe = sessdrv.run_spec(sessdrv.EngineProxy(eng), sessdrv.default_spec(
+                sessdrv.encode_request(eng.build([kdrv.get('x' * 39)], version=version), version), ts=ts), dumps=False)[0]
+            size0 = len(b''.join(probe['frames'][0]['sent']))
+            for target in (512, 1024, 2048, 4096, 8192, 16384):
+                for delta in (-8, 0, 8):
+                    ln = 39 + (target + delta - size0)
+                    if ln > 0:
+                        scen.append(('size-%d%+d' % (target, delta), [kdrv.get('x' * ln)], {}, None))
+                        sized[(version, 'size-%d%+d' % (target, delta))] = target + delta
             rng.shuffle(scen)
             scen = scen + [('create-again', [create()], {}, None)]
             stream = b''
@@ -328,6 +349,8 @@ def session_envelope(ctx):
                 ctx.count('session-envelope.%s' % name)
                 sent = b''.join(fr['sent'])
                 ctx.case_seen(('session-envelope', version, name, sent[:64]), nontrivial=True)
+                if (version, name) in sized and int.from_bytes(sent[4:8], 'big') + 8 == sized[(version, name)]:
+                    exact += 1          # the FIRST item on the wire has exactly the intended size
                 probs, summ = (['no response was sent'], None) if not sent else ttlvparse.envelope_problems(sent, version)
                 outcomes.setdefault(name, set()).add(repr(summ['items']) if summ else 'unparsed')
                 for pr in probs:
@@ -338,7 +361,9 @@ def session_envelope(ctx):
                                   'KmipSession answer to a KMIP %d.%d request (%s) violates the envelope: %s' % (version[0], version[1], name, pr))
         finally:
             eng.close()
-    ctx.cov['session_envelope'] = {'requests': n, 'versions': len(kdrv.VERSIONS),
+    if exact < len(sized):
+        ctx.notes.append('session envelope: only %d of %d sized answers had exactly the intended size' % (exact, len(sized)))
+    ctx.cov['session_envelope'] = {'requests': n, 'versions': len(kdrv.VERSIONS), 'answers_of_exact_intended_size': exact,
                                    'outcomes (status, reason) per scenario': {k: sorted(v) for k, v in sorted(outcomes.items())}}
     ctx.log('session envelope: %d answers of the real KmipSession parsed (%d problems)' % (n, bad))
 
@@ -358,3 +383,37 @@ def run(ctx):
                         'puts on the wire for ordinary and message-level-refused requests of every version.')
     ctx.regen(only=['kmiperrors'])
     run_envelope(ctx)
+
+
+# ---------------------------------------------------------------------- replay
+def replay(ctx, payload):
+    """Re-run, with the seed and tier recorded in the replay file, the phase that produced the recorded violation and
+    report whether the same signature occurs again (exit 1) or not (exit 0).  Broken-tie replays (no concrete input)
+    name the theorem / correspondence; they are re-checked by running the whole check."""
+    import random
+    sig = payload.get('signature')
+    ctx.seed = payload.get('seed', ctx.seed)
+    ctx.rng = random.Random(ctx.seed)
+    ctx.tier = payload.get('tier', ctx.tier)
+    if not sig:
+        print('replay names no concrete input (%s); re-running the whole check' % (payload.get('no_longer_checks') or payload.get('detail', ''))[:200])
+        run(ctx)
+        return ctx.finish()
+    ctx.regen(only=['enums', 'kmiperrors', 'schemas'])
+    if sig.get('what') == 'struct-emission':
+        struct_emission(ctx)
+    elif sig.get('path') == 'session':
+        session_envelope(ctx)
+    elif 'path' in sig:
+        envelope_run(ctx, 400 if ctx.tier == 'quick' else 4000)
+    else:
+        prim_cases(ctx, 40 if ctx.tier == 'quick' else 400, 6 if ctx.tier == 'quick' else 40)
+    from vlib.core import sig_matches
+    again = [v for v in ctx.violations if sig_matches(sig, v['signature'])]
+    known = [k for k, h in ctx.known_hits.items()]
+    if again:
+        print('REPRODUCED: %s' % again[0]['what'])
+        print('VIOLATION property=C02 replay=%s' % ctx.write_replay(dict(payload, reproduced=True)))
+        return 1
+    print('not reproduced on this tree (%d other violations, known findings hit: %s)' % (len(ctx.violations), known))
+    return 0
